@@ -988,6 +988,9 @@ func (e *Engine) binop(s *State, op token.Token, a, b Value, t, tb types.Type, x
 		case token.MUL:
 			return BVBin("bvmul", av, bv)
 		case token.QUO, token.REM:
+			if av.Sort.Width != bv.Sort.Width {
+				unsupp("operand widths differ (%d vs %d) at %s in %s", av.Sort.Width, bv.Sort.Width, e.Prog.Fset.Position(x.Pos()), x.Parent())
+			}
 			if !e.panicIf(s, Eq(bv, BVInt(0, bv.Sort.Width)), "integer divide by zero", x) {
 				return nil
 			}
